@@ -169,9 +169,6 @@ func (s *MonitoredItemService) CreateMonitoredItems(sc *uasc.SecureChannel, r ua
 	if err != nil {
 		return nil, err
 	}
-	s.Mu.Lock()
-	defer s.Mu.Unlock()
-
 	count := len(req.ItemsToCreate)
 
 	res := make([]*ua.MonitoredItemCreateResult, count)
@@ -180,9 +177,16 @@ func (s *MonitoredItemService) CreateMonitoredItems(sc *uasc.SecureChannel, r ua
 	if s.SubService.srv.cfg.logger != nil {
 		s.SubService.srv.cfg.logger.Debug("Creating monitored items for sub #%d", subID)
 	}
+	// Lock order: SubscriptionService.Mu before MonitoredItemService.Mu, never the other way
+	// round. SubscriptionService.DeleteSubscription holds its lock while it calls DeleteSub
+	// (which takes s.Mu); looking the subscription up while already holding s.Mu deadlocks
+	// with a subscription that is being deleted and stalls the dispatcher for good.
 	s.SubService.Mu.Lock()
 	sub, ok := s.SubService.Subs[subID]
 	s.SubService.Mu.Unlock()
+
+	s.Mu.Lock()
+	defer s.Mu.Unlock()
 	if !ok {
 		return nil, errors.New("sub doesn't exist")
 	}
